@@ -432,8 +432,12 @@ class HttpParser(abc.ABC, Generic[_MsgT]):
 
                         assert self.protocol is not None
                         # calculate payload
+                        # https://www.rfc-editor.org/rfc/rfc9112#section-6.3-2.1
+                        # Only a response can be bodiless by definition (to HEAD,
+                        # self.method is the method of the request it answers);
+                        # a request is framed by its headers whatever its method.
                         empty_body = code in EMPTY_BODY_STATUS_CODES or bool(
-                            method and method in EMPTY_BODY_METHODS
+                            self.method and self.method in EMPTY_BODY_METHODS
                         )
                         if not empty_body and (
                             (length is not None and length > 0) or msg.chunked
